@@ -19,6 +19,19 @@ ITEMS = ["S", "C1", "C2", "C3", "N2", "N3", "M", "D"]
 OBS = ["p1", "p3", "sens"]
 
 
+CUBE_F = [(0, 1, 3), (0, 3, 2), (4, 6, 7), (4, 7, 5), (0, 4, 5), (0, 5, 1), (2, 3, 7), (2, 7, 6), (0, 2, 6), (0, 6, 4),
+          (1, 5, 7), (1, 7, 3)]
+BIGCUBE_V = np.array([(x, y, z) for x in (-1, 1) for y in (-1, 1) for z in (-1, 1)], float) * 6.0
+
+
+def _ff_a(field, observers):
+    return np.array(observers) * 0.02 + 0.01
+
+
+def _ff_b(field, observers):
+    return np.array(observers) ** 2 * 0.01 - 0.005
+
+
 class Factory:
     """deterministic stream of distinct leaf sources"""
 
@@ -33,16 +46,21 @@ class Factory:
         self.i += 1
         pos = (0.9 * np.cos(1.3 * i) * (1 + 0.2 * i), 0.8 * np.sin(1.1 * i) * (1 + 0.15 * i), 0.3 * i - 0.5)
         ori = R.from_rotvec((0.1 * i, -0.2, 0.05 * i))
-        k = i % 6
+        k = i % 10
         if k == 0:
             return magpy.magnet.Cuboid(dimension=(0.5, 0.4, 0.3), polarization=(0.1 + 0.1 * i, 0.2, -0.3), position=pos, orientation=ori)
         if k == 1:
             return magpy.current.Circle(diameter=0.7, current=1.0 + i, position=pos, orientation=ori)
-        if k == 2:
+        if k in (2, 3):  # bodies sharing the identical local mesh (copies) with different polarizations; observer p1 is inside
+            return magpy.magnet.TriangularMesh(vertices=BIGCUBE_V, faces=CUBE_F, polarization=(0.2 - 0.15 * i, 0.1 * i, 0.3),
+                                               position=pos, orientation=ori)
+        if k in (4, 5):  # custom sources with different field functions
+            return magpy.misc.CustomSource(field_func=_ff_a if (k + i // 10) % 2 == 0 else _ff_b, position=pos, orientation=ori)
+        if k == 6:
             return magpy.misc.Dipole(moment=(0.3, -0.1 * i, 0.2), position=pos, orientation=ori)
-        if k == 3:
+        if k == 7:
             return magpy.magnet.Sphere(diameter=0.5, polarization=(0.3, 0.1 * i, 0.2), position=pos, orientation=ori)
-        if k == 4:
+        if k == 8:
             return magpy.current.Polyline(vertices=[(0, 0, 0), (0.3, 0.1, 0), (0.3, 0.4, 0.2)], current=0.5 + i, position=pos, orientation=ori)
         return magpy.magnet.Cylinder(dimension=(0.4, 0.5), polarization=(0.2, 0.1, 0.1 * i), position=pos, orientation=ori)
 
